@@ -3,7 +3,7 @@ H = 'checks.hC02'
 
 ESCAPED_SITES = ['text', 'attr_dq', 'attr_sq', 'tal_attr', 'tal_attr_sq_static', 'dict_attr', 'comment',
                  'content', 'replace', 'string_content', 'string_attr', 'i18n_name']
-MSG_SITES = ['translated_msg', 'translated_msg_interp']
+MSG_SITES = ['translated_msg', 'translated_msg_interp', 'content_translated', 'replace_translated']
 OPTOUT_SITES = ['structure_kw', 'structure_expr', 'html_method', 'cdata']
 
 
@@ -13,12 +13,14 @@ def plan(tier, seed):
     for site in ESCAPED_SITES:
         for k in ((1, 2, 3) if quick else (1, 2, 3, 4)):
             jobs.append({'site': site, 'kind': 'str', 'k': k})
-        for kind in ('substr', 'object', 'bytes'):
+        for kind in ('substr', 'object', 'bytes', 'intsub', 'floatsub'):
             jobs.append({'site': site, 'kind': kind, 'k': 2 if quick else 3})
         jobs.append({'site': site, 'kind': 'int', 'k': 1})
     for site in MSG_SITES:
         jobs.append({'site': site, 'kind': 'str', 'k': 1})
         jobs.append({'site': site, 'kind': 'str', 'k': 2})
+    for site in ('string_in_interp_text', 'string_in_interp_attr'):
+        jobs.append({'site': site, 'kind': 'str', 'k': 1, 'label': 'string-in-interpolation'})
     for site in OPTOUT_SITES:
         jobs.append({'site': site, 'kind': 'str', 'k': 1})
         jobs.append({'site': site, 'kind': 'str', 'k': 2})
@@ -44,7 +46,7 @@ def plan(tier, seed):
                 'single-quoted static attribute, attribute dictionary, comment, tal:content, tal:replace, string: in '
                 'content and attribute, i18n:name block, translated message objects, the 5-site combination) and the '
                 'opt-outs (structure keyword/expression, __html__, CDATA); value kinds str / str subclass / object with '
-                '__str__ / bytes (decode hook returns the symbolic text) / int; the inserted text is k symbolic code '
+                '__str__ / int and float subclasses with their own __str__ / bytes (decode hook returns the symbolic text) / int; dynamic content whose translation is the hostile text; the inserted text is k symbolic code '
                 'points, every code point 0..0x10FFFF, k <= %d (str) resp. %d (other kinds). Outside: longer values, '
                 'escaping of dictionary keys and of what a translation function returns for i18n:attributes, text-mode '
                 'templates (C20).' % (len(ESCAPED_SITES) + len(MSG_SITES) + 1, 3 if quick else 4, 2 if quick else 3)),
